@@ -36,8 +36,8 @@ ASSUMPTIONS = ["inputs are oriented manifold surfaces / conforming tetrahedral m
                "which diagonal splits a quad and how an n-gon (n>=5) is triangulated is left open (validity predicate)",
                "faces / cells not touched by a single-element operation keep their index (in-repo callers rely on it)"]
 
-MAX_FACES = 700        # operations whose result would exceed this many faces are skipped (counted as label)
-SWEEP_CAP = 120        # per query kind, at most this many elements are swept on large results
+MAX_FACES = 450        # operations whose result would exceed this many faces are skipped (counted as label)
+SWEEP_CAP = 80         # per query kind, at most this many elements are swept on large results
 
 
 # =============================================================================================== helpers
@@ -48,6 +48,7 @@ class Pfx:
     def __init__(self, ctx, prefix):
         self._c = ctx
         self._p = prefix
+        self._dead = False
 
     def _sig(self, signature):
         # answers of single query kinds ("q:<kind>[:order]") on the input object are one symptom: "input:connectivity"
@@ -55,22 +56,31 @@ class Pfx:
             return "input:connectivity"
         return self._p + signature
 
+    # once an oracle on the input object has failed (only possible to continue under an open known finding) the
+    # remaining oracles under the same prefix are skipped: one excluded event per case, not one per query
     def check(self, cond, signature, message="", **detail):
-        return self._c.check(cond, self._sig(signature), message, **detail)
+        if self._dead:
+            return True
+        ok = self._c.check(cond, self._sig(signature), message, **detail)
+        if not ok and self._p == "input:":
+            self._dead = True
+        return ok
 
     def fail(self, signature, message, **detail):
-        return self._c.fail(self._sig(signature), message, **detail)
+        return self.check(False, signature, message, **detail)
 
     def call(self, signature, f, *a, **kw):
+        if self._dead:
+            return False, None
         try:
             return True, f(*a, **kw)
         except Exception as e:
-            from vlib.runner import Violation, Inconclusive, HarnessError, innermost_mouette_frame
+            from vlib.runner import Violation, HarnessError, innermost_mouette_frame
             if isinstance(e, (Violation, HarnessError)):
                 raise
             where = innermost_mouette_frame(e.__traceback__)
-            self._c.fail(self._sig(signature) + ("" if self._sig(signature) == "input:connectivity" else ":raises"),
-                         f"{signature}: {type(e).__name__}: {e} (at {where})", exc=type(e).__name__)
+            sig = signature if self._sig(signature) == "input:connectivity" else signature + ":raises"
+            self.check(False, sig, f"{signature}: {type(e).__name__}: {e} (at {where})", exc=type(e).__name__)
             return False, None
 
     def label(self, *a):
@@ -500,6 +510,7 @@ def surface_sweep(m, nV, F, sort_on, seed, ctx, where):
 
 def volume_sweep(m, nV, C, sort_on, seed, ctx, where):
     ref = TetRef(nV, C)
+    P3._be_cache.clear()      # c03 caches border edges by id(ref); ids are reused once a reference object is collected
     mfaces, fid, medges, eid, ok = P3.containers(m, ref, ctx)
     if not ok:
         return False
@@ -734,7 +745,8 @@ def fn_ears(case, ctx):
     what = f"split_double_boundary_edges_triangles (ear triangles {ears})"
     if not ctx.check(ret is m, "return", f"{what}: documented to return the modified input mesh, returned another object ({type(ret).__name__})"):
         return
-    SR = observe_surface(ret, Pfx(ctx, "input:"), what)
+    pin = Pfx(ctx, "input:")      # the returned object is the object passed in: its own state is judged under 'input:'
+    SR = observe_surface(ret, pin, what)
     if SR is None:
         return
     if not ears:
@@ -753,9 +765,8 @@ def fn_ears(case, ctx):
     left = [f for f in SR.F if sum(1 for j in range(3) if refR.edge_on_border(f[j], f[(j + 1) % 3])) >= 2]
     ctx.check(not left or len(SR.F) == 1 + 2 * len(ears) and len(F) == 1, "postcondition", f"{what}: triangles {left[:3]} still have two border edges")
     exp_c = ([v for f in SR.F for v in f], [i for i, f in enumerate(SR.F) for _ in f])
-    # the returned object is the object passed in: its state is judged under the 'input:' prefix
-    Pfx(ctx, "input:").check(SR.corners == exp_c, "corners", f"{what}: corner records of the returned mesh are not 'every vertex of every face, face by face'")
-    surface_sweep(ret, len(SR.V), SR.F, case["sort"], case["sweep_seed"] + 1, Pfx(ctx, "input:"), what + " [returned = input object]")
+    pin.check(SR.corners == exp_c, "corners", f"{what}: corner records of the returned mesh are not 'every vertex of every face, face by face'")
+    surface_sweep(ret, len(SR.V), SR.F, case["sort"], case["sweep_seed"] + 1, pin, what + " [returned = input object]")
 
 
 # =============================================================================================== volumes
@@ -983,6 +994,7 @@ def fn_volume(case, ctx):
     m = volume_from(V, C, case["form"])
     if case["pre"]:
         pc = Pfx(ctx, "pre:")
+        P3._be_cache.clear()
         mfaces, fid, medges, eid, ok = P3.containers(m, ref0, pc)
         if not ok:
             return
@@ -1206,10 +1218,10 @@ def self_test():
 
 
 SUBCHECKS = [
-    SubCheck("surface_edit", surface_case(), fn_surface, quick=300, thorough=1500),
-    SubCheck("volume_edit", volume_case(), fn_volume, quick=200, thorough=800),
+    SubCheck("surface_edit", surface_case(), fn_surface, quick=400, thorough=1500),
+    SubCheck("volume_edit", volume_case(), fn_volume, quick=300, thorough=1500),
     SubCheck("polyline_split", polyline_case(), fn_polyline, quick=200, thorough=1500),
-    SubCheck("double_boundary", ears_case(), fn_ears, quick=120, thorough=600),
+    SubCheck("double_boundary", ears_case(), fn_ears, quick=160, thorough=800),
 ]
 
 
